@@ -33,6 +33,11 @@ func init() {
 				}
 			}()
 			e["ap"] = ints(x.Append(nil, spec))
+			// the same call on buffers the caller already owns: a prefix that must stay in front, a buffer with spare room, a
+			// buffer of non-zero capacity that is too small for the padded text
+			e["ap2"] = ints(x.Append([]byte("pre"), spec))
+			e["ap3"] = ints(x.Append(append(make([]byte, 0, 96), "pre"...), spec))
+			e["ap4"] = ints(x.Append(make([]byte, 0, len(e["s"].([]int))/2+1), spec))
 		}()
 		if e.has("flt") {
 			e["fs"] = ints([]byte(fmt.Sprintf("%"+spec, recToFloat64(e["flt"]))))
